@@ -98,6 +98,12 @@ def _sym_tol(name, allow_none=True):
     return t
 
 
+def _pos_real(name):
+    t = fresh_real(name)
+    ctx().assume(t.e > 0)
+    return t
+
+
 def _x0(rank=1):
     c = ctx()
     dims = []
@@ -126,10 +132,11 @@ def unit_nonlin(line_search, rank=1, complex_=False):
         c = ctx()
         x0 = _x0(rank)
         f = kit.UserFn("f")
-        f_tol = _sym_tol("f_tol")
-        x_tol = _sym_tol("x_tol")
-        f_rtol = _sym_tol("f_rtol")
-        x_rtol = _sym_tol("x_rtol")
+        # option configurations: every option is exercised both as default (None) and as an arbitrary positive value
+        cfg = ["NNNN", "SSSS", "SNSN", "NSNS"][c.choose(4, "tolerances")]
+        c.ghost["loop_variant"] = cfg
+        f_tol, x_tol, f_rtol, x_rtol = [(_pos_real(nm) if k == "S" else None)
+                                        for nm, k in zip(("f_tol", "x_tol", "f_rtol", "x_rtol"), cfg)]
         maxiter = fresh_int("maxiter")
         c.assume(maxiter.e >= 0)
         with kit.patched(rs, "_nonline_line_search", line_search_contract):
